@@ -30,7 +30,8 @@ def c06(prop, tier, res, replay=None):
 
 
 def c16(prop, tier, res, replay=None):
-    return pure.check_cases(prop, tier, res, [EGRESS, RELOAD_SWEEPS], SWEEP_ASSUME + [
+    return pure.check_cases(prop, tier, res, [EGRESS, RELOAD_SWEEPS, DRUN], SWEEP_ASSUME + [
+        "real-dispatcher runs (drun) with scripted policy denials next to other terminal answers in one micro-batch: every message must be dead-lettered with the reason of its own answers",
         "URL parsing (net/url) and literal-address recognition (netip.ParseAddr) are the stdlib's: the model receives scheme/hostname/literal as Go parsed them",
         "DNS rebinding between check and dial is outside the property (\"at the time of the check\"); redirect scenarios run against loopback httptest servers through a custom dialer"], replay)
 
@@ -159,8 +160,8 @@ def c19(prop, tier, res, replay=None):
         "positions in lexer error messages are not modelled; input is valid UTF-8 (the lexer rejects invalid UTF-8 at token starts)"], replay)
 
 
-OPFRONT = dict(sub="opfront", mode="opfront", family="opfront", shards=q(2, 8),
-               args=lambda tier, sd, sh: ["-seed", sd * 1000 + sh, "-n", 250 if tier == "quick" else 2500],
+OPFRONT = dict(sub="opfront", mode="opfront", family="opfront", shards=q(4, 16),
+               args=lambda tier, sd, sh: ["-seed", sd * 1000 + sh, "-n", 900 if tier == "quick" else 5000],
                key_fields=["k", "case", "via"])
 
 
